@@ -1,10 +1,9 @@
 From Coq Require Import Lia.
-Require Import Base.Bytes Model.Frame Model.Split Lib.Bufio Spec.StreamSpec Proofs.SplitProofs Proofs.SegProofs Proofs.LemmaB Proofs.SegT Proofs.ScanThm1 Proofs.ScanThm2.
+Require Import Base.Bytes Model.Frame Model.Split Lib.Bufio Spec.StreamSpec Spec.Terminal Proofs.SplitProofs Proofs.SegProofs Proofs.LemmaB Proofs.SegT Proofs.ScanThm1 Proofs.ScanThm2.
 Open Scope nat_scope.
 
 Ltac ssplit := repeat match goal with |- _ /\ _ => split end.
 
-Definition tterm (z : term) (fin : terminal) := match z with STooLong => TTooLong | SEnd => fin end.
 
 Lemma phase1_err s : has_err s = true ->
   phase1 s = (let '(adv, t) := scan_messages (pend s) true in
@@ -12,12 +11,16 @@ Lemma phase1_err s : has_err s = true ->
                match t with Some _ => true | None => false end)).
 Proof. intros H. unfold phase1. rewrite H, orb_true_r. reflexivity. Qed.
 
+(* a scanner that has given up: its error is recorded and what it still holds yields no token *)
+Definition finished (s : scanner) (e : terminal) : Prop :=
+  serr s = Some e /\ snd (scan_messages (pend s) true) = None /\ tok s = None.
+
 Lemma scan_err_state fuel s r e : serr s = Some e -> G s ->
   (length (pend s) < maxtok \/ snd (segT (pend s)) = SEnd) ->
   match scan (S fuel) s r with
   | SR true s' r' => r' = r /\ exists t ts z, tok s' = Some t /\ segT (pend s) = (t :: ts, z) /\
         segT (pend s') = (ts, z) /\ serr s' = Some e /\ length (pend s') + 5 <= length (pend s) /\ G s'
-  | SR false s' r' => segT (pend s) = ([], SEnd) /\ sc_err s' = e
+  | SR false s' r' => segT (pend s) = ([], SEnd) /\ sc_err s' = e /\ r' = r /\ finished s' e
   | SFuel => False
   end.
 Proof.
@@ -31,7 +34,7 @@ Proof.
     exists t, ts, z. split; [reflexivity|]. split; [reflexivity|]. split; [reflexivity|]. split; [assumption|]. split.
     + rewrite skipn_length. lia.
     + destruct HG as [G1 G2]. unfold G, sc_end in *. cbn [buflen start pend]. rewrite skipn_length. split; lia.
-  - cbn [sc_err serr]. rewrite He. split; [|reflexivity].
+  - cbn [sc_err serr]. rewrite He. split; [|split; [reflexivity|split; [reflexivity|split; [reflexivity|split; reflexivity]]]].
     rewrite segT_unfold, E in *. f_equal.
     destruct Hl as [Hl|Hl]; [|exact Hl].
     destruct (maxtok <=? length (skipn a (pend s))) eqn:E2; [|reflexivity].
@@ -57,7 +60,8 @@ Definition scan_post (s : scanner) (r : reader) (res : scan_res) : Prop :=
         sched_ok (sched r') /\ mu r' <= mu r /\
         length (pend s') + length (rest r') + 5 <= length (pend s) + length (rest r) /\
         (serr s' = None \/ (serr s' = Some (final r) /\ rest r' = [] /\ drain_ok s'))
-  | SR false s' r' => exists z, segT (pend s ++ rest r) = ([], z) /\ sc_err s' = tterm z (final r)
+  | SR false s' r' => exists z, segT (pend s ++ rest r) = ([], z) /\ sc_err s' = tterm z (final r) /\
+        finished s' (tterm z (final r)) /\ final r' = final r /\ sched_ok (sched r')
   end.
 
 (* the error convention "data together with the error" is covered when the reference segmentation of
@@ -71,7 +75,7 @@ Definition scan_pre (s : scanner) (r : reader) (fuel : nat) : Prop :=
 (* the part of one loop iteration after phase 1 produced no token, in the no-error state *)
 Lemma after_phase1 f (IH : forall s r, scan_pre s r f -> scan_post s r (scan f s r))
   s1 r : scan_pre s1 r (S f) ->
-  (pend s1 = [] \/ scan_messages (pend s1) false = (0, None)) ->
+  (pend s1 = [] \/ (scan_messages (pend s1) false = (0, None) /\ tok s1 = None)) ->
   scan_post s1 r
     (match grow (shift s1) with
      | None => SR false (with_err (shift s1) TTooLong) r
@@ -103,7 +107,7 @@ Proof.
         -- unfold mu. rewrite Hrest, Hrest'. cbn [length]. lia.
         -- cbn [length]. lia.
         -- right. ssplit; try assumption; try reflexivity. left. rewrite Hp4, Hp3, Hp2 in Hlt. lia.
-      * destruct Hs as (Hseg & Herr). exists SEnd. rewrite Hrest, app_nil_r. split; [exact Hseg|exact Herr].
+      * destruct Hs as (Hseg & Herr & -> & Hfin). exists SEnd. rewrite Hrest, app_nil_r. cbn [tterm]. ssplit; assumption.
     + destruct Hcase as (k & Hk & Hp4 & Hr' & HG4 & Hmu' & Hcase).
       assert (Happ : pend s4 ++ rest r' = pend s1 ++ rest r).
       { rewrite Hp4, Hr', Hp3, Hp2, <- app_assoc, firstn_skipn. reflexivity. }
@@ -117,7 +121,7 @@ Proof.
            exists t, ts, z. rewrite <- Happ. ssplit; try assumption; try congruence; try lia.
            ++ assert (HH : length (pend s4 ++ rest r') = length (pend s1 ++ rest r)) by (rewrite Happ; reflexivity).
               rewrite !app_length in HH. lia.
-        -- destruct IH as (z & Hseg & Herr). exists z. rewrite <- Happ, <- Hf4. split; assumption.
+        -- destruct IH as (z & Hseg & Herr & Hfin & Hfr & Hsr). exists z. rewrite <- Happ, <- Hf4. ssplit; try assumption; congruence.
       * (* the last k bytes arrive together with the error *)
         rewrite Hse in He4. cbn [set_err] in He4.
         assert (Hr'nil : rest r' = []) by (rewrite Hr', Hkall; apply skipn_all).
@@ -134,13 +138,21 @@ Proof.
            ++ right. ssplit; try assumption; try reflexivity.
               right. rewrite Hseg'. cbn [snd].
               destruct Hconv as [Hc|Hc]; [congruence|]. rewrite Hseg in Hc. exact Hc.
-        -- destruct Hs as (Hseg & Herr). exists SEnd. split; [exact Hseg|exact Herr].
+        -- destruct Hs as (Hseg & Herr & -> & Hfin). exists SEnd. cbn [tterm]. ssplit; assumption.
   - (* ErrTooLong *)
     pose proof (grow_none _ HG2 Hst2 Eg) as Hfull. rewrite Hp2 in Hfull.
     exists STooLong. split.
     + apply full_buffer_toolong; [|lia].
-      destruct Hidem as [Hnil|Hidem]; [rewrite Hnil in Hfull; cbn in Hfull; pose proof maxtok_ge; lia|exact Hidem].
-    + unfold sc_err, with_err. cbn [serr]. rewrite He2, He. reflexivity.
+      destruct Hidem as [Hnil|[Hidem _]]; [rewrite Hnil in Hfull; cbn in Hfull; pose proof maxtok_ge; lia|exact Hidem].
+    + assert (Hf : finished (with_err (shift s1) TTooLong) TTooLong).
+      { unfold finished, with_err. cbn [serr pend tok]. rewrite He2, He, Hp2.
+        destruct Hidem as [Hnil|[Hid Htk]]; [rewrite Hnil in Hfull; cbn in Hfull; pose proof maxtok_ge; lia|].
+        split; [reflexivity|]. split.
+        - replace (scan_messages (pend s1) true) with (scan_messages (pend s1) false) by (unfold scan_messages; reflexivity).
+          rewrite Hid. reflexivity.
+        - unfold shift. destruct (_ && _); cbn [tok]; exact Htk. }
+      cbn [tterm]. ssplit; try assumption; try reflexivity.
+      unfold sc_err, with_err. cbn [serr]. rewrite He2, He. reflexivity.
 Qed.
 
 Theorem scan_ok fuel : forall s r, scan_pre s r fuel -> scan_post s r (scan fuel s r).
@@ -170,9 +182,9 @@ Proof.
       pose proof (scan_adv_le _ _ _ _ E) as Ha.
       assert (HG1 : G s1).
       { destruct HG as [G1 G2]. unfold s1, G, sc_end in *. cbn [buflen start pend]. rewrite Ep in G1. rewrite skipn_length. split; lia. }
-      assert (Hidem : pend s1 = [] \/ scan_messages (pend s1) false = (0, None)).
-      { unfold s1. cbn [pend]. destruct (skipn a (b :: bs)) eqn:Esk; [left; reflexivity|right].
-        rewrite <- Esk. apply split_idem; [exact E|rewrite Esk; discriminate]. }
+      assert (Hidem : pend s1 = [] \/ (scan_messages (pend s1) false = (0, None) /\ tok s1 = None)).
+      { unfold s1. cbn [pend tok]. destruct (skipn a (b :: bs)) eqn:Esk; [left; reflexivity|right].
+        split; [|reflexivity]. rewrite <- Esk. apply split_idem; [exact E|rewrite Esk; discriminate]. }
       pose proof (no_tok_advance_stableT (b :: bs) (rest r) a ltac:(discriminate) E) as Hstab.
       assert (Hs1 : pend s1 = skipn a (b :: bs)) by reflexivity.
       assert (Hlen1 : length (pend s1) <= length (b :: bs)) by (rewrite Hs1, skipn_length; lia).
@@ -188,6 +200,6 @@ Proof.
         -- destruct H as (t & ts & z & Ht & Hseg & Hrest). exists t, ts, z.
            rewrite Hstab. split; [exact Ht|]. split; [exact Hseg|].
            destruct Hrest as (H1 & H2 & H3 & H4 & H5 & H6 & H7 & H8). ssplit; try assumption. rewrite Ep. lia.
-        -- destruct H as (z & Hseg & Herr). exists z. rewrite Hstab. split; assumption.
-      * cbn [scan_post] in *. destruct H as (z & Hseg & Herr). exists z. rewrite Hstab. split; assumption.
+        -- destruct H as (z & Hseg & Herr & Hrest). exists z. rewrite Hstab. ssplit; try assumption; apply Hrest.
+      * cbn [scan_post] in *. destruct H as (z & Hseg & Herr & Hrest). exists z. rewrite Hstab. ssplit; try assumption; apply Hrest.
 Qed.
